@@ -934,65 +934,158 @@ class Confined:
                 return rel, cname
         return None
 
+    def _ann_class(self, rel, ann):
+        """class named by an annotation (`C`, `"C"`, `Optional[C]`, `mod.C`): (rel, name) | 'archive:<kind>' | None"""
+        if ann is None:
+            return None
+        found = set()
+        for x in ast.walk(ann):
+            names = []
+            if isinstance(x, ast.Name):
+                names.append(x.id)
+            elif isinstance(x, ast.Attribute):
+                d = dotted(x)
+                if d:
+                    head = d.split(".")[0]
+                    full = self.mods[rel].imports.get(head, head) + d[len(head):]
+                    if full in ARCHIVE_CLASSES:
+                        found.add("archive:" + ARCHIVE_CLASSES[full])
+                    names.append(x.attr)
+            elif isinstance(x, ast.Constant) and isinstance(x.value, str):
+                names.extend(re.findall(r"[A-Za-z_][A-Za-z0-9_]*", x.value))
+            for nm in names:
+                full = self.mods[rel].imports.get(nm, nm)
+                if full in ARCHIVE_CLASSES:
+                    found.add("archive:" + ARCHIVE_CLASSES[full])
+                elif self.class_of_name(nm):
+                    found.add(self.class_of_name(nm))
+        return found.pop() if len(found) == 1 else None
+
+    def _attr_class(self, cls_key, attr, depth):
+        """class of the instance attribute `attr` of class `cls_key`: from its annotation or from every value stored into it"""
+        rel, cname = cls_key
+        cls = self.mods[rel].classes.get(cname)
+        if cls is None:
+            return None
+        meth = self.fns.get((rel, f"{cname}.{attr}"))
+        if meth is not None and any("property" in ast.unparse(d) for d in meth.decorator_list):
+            return self._return_class((rel, f"{cname}.{attr}"), depth + 1)
+        found = set()
+        for n in ast.walk(cls):
+            tgt = val = ann = None
+            if isinstance(n, ast.AnnAssign):
+                tgt, val, ann = n.target, n.value, n.annotation
+            elif isinstance(n, ast.Assign) and len(n.targets) == 1:
+                tgt, val = n.targets[0], n.value
+            is_self_attr = isinstance(tgt, ast.Attribute) and isinstance(tgt.value, ast.Name) and tgt.value.id == "self" and tgt.attr == attr
+            is_cls_attr = isinstance(tgt, ast.Name) and tgt.id == attr and n in cls.body
+            if not (is_self_attr or is_cls_attr):
+                continue
+            c = self._ann_class(rel, ann)
+            if c is None and val is not None and not (isinstance(val, ast.Constant) and val.value is None):
+                owner = next((k for k in self.fns if k[0] == rel and k[1].startswith(cname + ".") and any(x is n for x in ast.walk(self.fns[k]))), None)
+                c = self.receiver_class(owner, val, depth + 1) if owner else None
+                if c is None:
+                    found.add(None)
+            if c is not None:
+                found.add(c)
+        return found.pop() if len(found) == 1 else None
+
     def receiver_class(self, key, recv, depth=0):
-        """class (rel, name) of the receiver expression of a method call, None if unknown; 'archive:zip' / 'archive:tar' for library archives"""
+        """class of the value of expression `recv` in function `key`: (rel, class name) for a class of the two modules, 'archive:zip' /
+        'archive:tar' for library archive objects, None if unknown.  Follows local bindings, annotated / call-site-bound parameters,
+        instance attributes, constructor calls, return annotations and returned expressions of helper functions and methods."""
+        if depth > 6 or recv is None or key is None:
+            return None
         rel, q = key
         f = self.fns[key]
+        if isinstance(recv, (ast.NamedExpr, ast.Await)):
+            return self.receiver_class(key, recv.value, depth + 1)
+        if isinstance(recv, (ast.IfExp, ast.BoolOp)):
+            parts = [recv.body, recv.orelse] if isinstance(recv, ast.IfExp) else list(recv.values)
+            kinds = {self.receiver_class(key, x, depth + 1) for x in parts if not (isinstance(x, ast.Constant) and x.value is None)} - {"none"}
+            return kinds.pop() if len(kinds) == 1 else None
         if isinstance(recv, ast.Name):
             if recv.id in ("self", "cls") and "." in q:
                 return rel, q.rsplit(".", 1)[0]
-            vals = self.bindings(key, recv.id)
             kinds = set()
-            for v in vals:
-                if isinstance(v, ast.Call):
-                    c = self.canonical(rel, v)
-                    if c in ARCHIVE_CLASSES:
-                        kinds.add("archive:" + ARCHIVE_CLASSES[c])
-                        continue
-                    cl = self.class_of_name(c.split(".")[-1])
-                    if cl:
-                        kinds.add(cl)
-                        continue
-                kinds.add(None)
-            # annotated parameter
+            for v in self.bindings(key, recv.id):
+                if isinstance(v, ast.Constant) and v.value is None:
+                    continue                      # `x = None` placeholder: a method call on it would raise, not reach a file
+                kinds.add(self.receiver_class(key, v, depth + 1) if v is not None else None)
+            kinds.discard("none")
             for a in f.args.posonlyargs + f.args.args + f.args.kwonlyargs:
                 if a.arg == recv.id and a.annotation is not None:
-                    ann = ast.unparse(a.annotation)
-                    head = ann.split(".")[0]
-                    full = self.mods[rel].imports.get(head, head) + ann[len(head):]
-                    if full in ARCHIVE_CLASSES:
-                        kinds.add("archive:" + ARCHIVE_CLASSES[full])
-                    elif self.class_of_name(ann.split(".")[-1]):
-                        kinds.add(self.class_of_name(ann.split(".")[-1]))
-            if not kinds and recv.id in self.params(key) and "." not in q and depth < 3:
-                # an un-annotated parameter of a module-level helper: the class every direct call site passes
-                for ck, f2 in self.fns.items():
-                    for n in ast.walk(f2):
-                        if isinstance(n, ast.Call) and isinstance(n.func, ast.Name) and n.func.id == q and self.owner.get(id(n)) == ck:
-                            if ck[0] != rel and not self.mods[ck[0]].imports.get(q, "").endswith("." + q):
-                                continue
-                            amap = self.bind(key, n)
-                            kinds.add(self.receiver_class(ck, amap[recv.id], depth + 1) if amap and recv.id in amap else None)
+                    c = self._ann_class(rel, a.annotation)
+                    if c is not None:
+                        kinds.add(c)
+            if not kinds and recv.id in self.params(key):
+                # an un-annotated parameter: the class every call site passes
+                sites = self._name_sites(key)
+                for ck, n in sites:
+                    amap = self.bind(key, n)
+                    kinds.add(self.receiver_class(ck, amap[recv.id], depth + 1) if amap and recv.id in amap else None)
             return kinds.pop() if len(kinds) == 1 else None
-        if isinstance(recv, ast.Attribute) and isinstance(recv.value, ast.Name) and recv.value.id == "self" and "." in q:
-            cls = self.mods[rel].classes.get(q.rsplit(".", 1)[0])
-            found = set()
-            for n in ast.walk(cls) if cls is not None else ():
-                tgt = val = ann = None
-                if isinstance(n, ast.AnnAssign):
-                    tgt, val, ann = n.target, n.value, n.annotation
-                elif isinstance(n, ast.Assign) and len(n.targets) == 1:
-                    tgt, val = n.targets[0], n.value
-                if isinstance(tgt, ast.Attribute) and isinstance(tgt.value, ast.Name) and tgt.value.id == "self" and tgt.attr == recv.attr:
-                    for src in (ann, val):
-                        if src is None:
-                            continue
-                        for x in ast.walk(src):
-                            nm = x.id if isinstance(x, ast.Name) else (x.value if isinstance(x, ast.Constant) and isinstance(x.value, str) else None)
-                            if nm and self.class_of_name(nm):
-                                found.add(self.class_of_name(nm))
-            return found.pop() if len(found) == 1 else None
+        if isinstance(recv, ast.Attribute):
+            owner = self.receiver_class(key, recv.value, depth + 1)
+            if isinstance(owner, tuple):
+                return self._attr_class(owner, recv.attr, depth)
+            return None
+        if isinstance(recv, ast.Call):
+            c = self.canonical(rel, recv)
+            if c in ARCHIVE_CLASSES:
+                return "archive:" + ARCHIVE_CLASSES[c]
+            if isinstance(recv.func, ast.Name) and self.class_of_name(recv.func.id) and (rel, recv.func.id) not in self.fns:
+                return self.class_of_name(recv.func.id)
+            if c and self.class_of_name(c.split(".")[-1]) and c.split(".")[-1][:1].isupper() and not isinstance(recv.func, ast.Name):
+                return self.class_of_name(c.split(".")[-1])
+            targets = []
+            if isinstance(recv.func, ast.Name):
+                targets = self._fn_targets(rel, recv.func.id)
+            elif isinstance(recv.func, ast.Attribute):
+                owner = self.receiver_class(key, recv.func.value, depth + 1)
+                if isinstance(owner, tuple) and (owner[0], f"{owner[1]}.{recv.func.attr}") in self.fns:
+                    targets = [(owner[0], f"{owner[1]}.{recv.func.attr}")]
+            kinds = set()
+            for t in targets:
+                kinds.add(self._return_class(t, depth + 1))
+            return kinds.pop() if len(kinds) == 1 else None
         return None
+
+    def _fn_targets(self, rel, name):
+        if (rel, name) in self.fns:
+            return [(rel, name)]
+        origin = self.mods[rel].imports.get(name, "")
+        return [(r2, q2) for (r2, q2) in self.fns if "." not in q2 and q2 == origin.split(".")[-1] and origin.startswith(r2[:-3].replace("/", "."))]
+
+    def _name_sites(self, key):
+        """direct call sites `f(...)` / `self.f(...)` / `<expr>.f(...)` of function `key`, found by name (no receiver typing needed)"""
+        rel, q = key
+        simple = q.split(".")[-1]
+        out = []
+        for ck, f2 in self.fns.items():
+            for n in ast.walk(f2):
+                if not isinstance(n, ast.Call) or self.owner.get(id(n)) != ck:
+                    continue
+                if "." not in q and isinstance(n.func, ast.Name) and n.func.id == simple and key in self._fn_targets(ck[0], simple):
+                    out.append((ck, n))
+                elif "." in q and isinstance(n.func, ast.Attribute) and n.func.attr == simple:
+                    out.append((ck, n))
+        return out
+
+    def _return_class(self, key, depth):
+        f = self.fns[key]
+        c = self._ann_class(key[0], f.returns)
+        if c is not None:
+            return c
+        kinds = set()
+        for r in ast.walk(f):
+            if isinstance(r, ast.Return) and r.value is not None and not (isinstance(r.value, ast.Constant) and r.value.value is None) and self.owner_fn_of(r, key):
+                kinds.add(self.receiver_class(key, r.value, depth + 1))
+        kinds.discard("none")
+        if not kinds:
+            return "none"             # never returns a value (returns None / always raises): no object a method could be called on
+        return kinds.pop() if len(kinds) == 1 else None
 
     def resolve(self, key, call):
         """-> list of function keys this call may target (empty: not a function of the two modules)"""
@@ -1013,7 +1106,7 @@ class Confined:
             cl = self.receiver_class(key, fn.value)
             if isinstance(cl, tuple):
                 return [(cl[0], f"{cl[1]}.{fn.attr}")] if (cl[0], f"{cl[1]}.{fn.attr}") in self.fns else []
-            if isinstance(cl, str):
+            if isinstance(cl, str) and cl != "none":
                 return []
             return [k for k in self.fns if "." in k[1] and k[1].rsplit(".", 1)[1] == fn.attr]    # unknown receiver: by name
         return []
@@ -1214,11 +1307,35 @@ class Confined:
                     out.append((rel, q, call, c, "unrecognised", where + ": file-system primitive outside the recognised set"))
                 elif isinstance(call.func, ast.Attribute) and call.func.attr in ("extract", "extractall", "makefile") and key is not None:
                     cl = self.receiver_class(key, call.func.value)
-                    if isinstance(cl, tuple):
+                    if isinstance(cl, tuple) or cl == "none":
                         continue                      # the 7z reader of this package: a call site of its own (binds `path`)
-                    kind = cl.split(":")[1] if isinstance(cl, str) else "unknown receiver"
+                    if cl is None and not self._may_hold_library_archive(rel) and any(
+                            k[0] == rel and "." in k[1] and k[1].rsplit(".", 1)[1] == call.func.attr for k in self.fns):
+                        continue                      # no library archive object can exist in this module; resolved by name to its own methods
+                    kind = cl.split(":")[1] if isinstance(cl, str) and ":" in cl else "unknown receiver"
                     out.append((rel, q, call, f"<{kind}>.{call.func.attr}", "unrecognised", where + f": `{ast.unparse(call)}` lets a library archive object write members to disk"))
         return out
+
+    def _may_hold_library_archive(self, rel):
+        """can code of this module hold a zipfile / tarfile / shutil object?  Only if it imports such a module, or a function of it is
+        called from a module that does (then the object could come in as an argument)"""
+        libs = ("zipfile", "tarfile", "shutil", "py7zr")
+        def imports_lib(r):
+            return any(o.split(".")[0] in libs for o in self.mods[r].imports.values())
+        if imports_lib(rel):
+            return True
+        for callee, ss in self.sites.items():
+            if callee[0] == rel and any(ck[0] != rel and imports_lib(ck[0]) and self._passes_object(ck, n) for ck, n, _a in ss):
+                return True
+        return False
+
+    def _passes_object(self, ck, call):
+        """does this cross-module call pass anything that may be a library archive object (i.e. not a plain str / number / stream)?"""
+        for a in list(call.args) + [k.value for k in call.keywords]:
+            c = self.receiver_class(ck, a)
+            if isinstance(c, str) and c.startswith("archive:"):
+                return True
+        return False
 
     def tempdir_blocks(self, rel):
         """[(function, with node, name, loads inside, loads total)] for every `with TemporaryDirectory() as name`"""
